@@ -1,4 +1,4 @@
-import LcModel.Sync.Lemmas
+import LcModel.Sync.LemmasFork
 /-!
 # C08 — a crash at any storage write loses no script activity
 
@@ -8,8 +8,10 @@ sites of every operation, and — for a crash injected in front of every store w
 after the restart against the model after the same prefix of writes.
 
 The theorems are about the filter-sync state (scripts, min filtered number, matched-blocks
-records, index).  Fork rollback, the tip update, check point finalization and first-run
-initialisation are exercised by the crash enumeration of the check only (see DESIGN.md).
+records, index), including the fork rollback of `commit_prove_state` (`Sync.forkWrites`: the chain
+itself changes there, the invariant is carried from the old chain to the new one).  The tip
+update, check point finalization and first-run initialisation are exercised by the crash
+enumeration of the check only (see DESIGN.md).
 -/
 namespace C08
 open Sync
@@ -37,6 +39,83 @@ theorem converges_to_the_same_index (touches : Nat → Nat → Bool) (g : G)
     (s, b) ∈ (runG touches g h).p.indexed := by
   exact indexed_of_done (inv_runG touches h g hi ho) hdone hs ht hlo (Nat.le_trans hb htip)
 
+/-! ## the fork rollback -/
+
+/-- **C08 / C04, the completed fork handling**: if no retained record reaches beyond the fork
+point `f` (the known finding otherwise) the store after the fork handling satisfies the invariant
+for the NEW chain `touches'`, which shares the blocks up to `f` with the old one: every block at or
+below the fork point that was indexed, pending or still to be filtered is so still, nothing above
+it is claimed, and filter sync resumes at or below it -/
+theorem fork_keeps_invariant (touches touches' : Nat → Nat → Bool) (g : G) (f : Nat)
+    (hi : Inv touches g) (hns : NoSpan g.p f) (hnc : NoClaimInRetained g.p g.lo f)
+    (hag : Agree f touches touches') :
+    Inv touches' ⟨applyWs g.p (forkWrites g.p f), g.lo⟩ := by
+  obtain ⟨p, lo⟩ := g
+  exact inv_fork hi hns hnc hag
+
+/-- **a crash in front of any write of the fork handling** (the deletions of the records above
+the fork point one by one, then the rollback batch): the store satisfies the invariant for the
+blocks at or below the fork point — everything the old chain and the new one share, so whichever
+of them the restarted client follows, nothing of it has been forgotten -/
+theorem fork_crash_keeps_shared_part (touches : Nat → Nat → Bool) (g : G) (f j : Nat)
+    (hi : Inv touches g) (hns : NoSpan g.p f) (hnc : NoClaimInRetained g.p g.lo f) :
+    Inv (below f touches) ⟨applyWs g.p ((forkWrites g.p f).take j), g.lo⟩ := by
+  obtain ⟨p, lo⟩ := g
+  exact fork_prefix_below hi hns hnc j
+
+/-- **crash, restart, the same fork again**: the stored tip is written after the fork handling,
+so the restarted client detects the same fork; the second fork handling ends in exactly the store
+of an uninterrupted one, wherever the first one died (`j ≥` the number of writes: it had
+completed — the handling is idempotent) -/
+theorem fork_crash_then_refork (p : P) (f j : Nat) :
+    let pj := applyWs p ((forkWrites p f).take j)
+    applyWs pj (forkWrites pj f) = applyWs p (forkWrites p f) :=
+  refork_after_crash p f j
+
+/-- **every history of operations, crashes anywhere and reorganisations** (each fork handling
+interrupted by any number of crashes before it completes) keeps the invariant for the chain of
+the moment -/
+theorem inv_run_with_forks (evs : List Ev) (touches : Nat → Nat → Bool) (g : G)
+    (hi : Inv touches g) (ho : EvsOk touches g evs) :
+    Inv (runEv touches g evs).1 (runEv touches g evs).2 :=
+  inv_runEv evs touches g hi ho
+
+/-- after any such history, continued syncing that reaches `tip` with no record pending has
+indexed every block of the FINAL chain that touches a registered script above its registration
+number -/
+theorem converges_after_forks (evs : List Ev) (touches : Nat → Nat → Bool) (g : G)
+    (hi : Inv touches g) (ho : EvsOk touches g evs) (tip : Nat)
+    (hdone : (runEv touches g evs).2.p.records = []) (htip : tip ≤ (runEv touches g evs).2.p.minF)
+    (s n b : Nat) (hs : (s, n) ∈ (runEv touches g evs).2.p.scripts)
+    (ht : (runEv touches g evs).1 s b = true)
+    (hlo : (runEv touches g evs).2.lo s < b) (hb : b ≤ tip) :
+    (s, b) ∈ (runEv touches g evs).2.p.indexed :=
+  indexed_of_done (inv_runEv evs touches g hi ho) hdone hs ht hlo (Nat.le_trans hb htip)
+
+/-- non-vacuity: script 1 waits for block 5 (record from 1) and for block 12 (record from 11);
+the chain forks at 10: the premises hold, the second record goes, the first stays, filter sync
+resumes at 2 -/
+example :
+    let touches : Nat → Nat → Bool := fun s b => s == 1 && (b == 5 || b == 12)
+    let touches' : Nat → Nat → Bool := fun s b => s == 1 && (b == 5 || b == 11)
+    let p : P := ⟨[(1, 0)], 14, [⟨1, 10, [5]⟩, ⟨11, 4, [12]⟩], []⟩
+    NoSpan p 10 ∧ NoClaimInRetained p (fun _ => 0) 10 ∧ Agree 10 touches touches' ∧
+    (applyWs p (forkWrites p 10)).records = [⟨1, 10, [5]⟩] ∧
+    (applyWs p (forkWrites p 10)).minF = 1 ∧ (forkWrites p 10).length = 2 := by
+  intro touches touches' p
+  refine ⟨?_, ?_, ?_, by decide, by decide, by decide⟩
+  · intro r hr hle
+    simp [p] at hr
+    rcases hr with rfl | rfl <;> simp at hle ⊢
+  · intro r hr hle e he b h1 h2 h3 h4 h5
+    simp [p] at he; subst he
+    simp at h4 h5; omega
+  · intro s b hb
+    simp only [touches, touches']
+    have h1 : (b == 12) = false := by simp; omega
+    have h2 : (b == 11) = false := by simp; omega
+    rw [h1, h2]
+
 /-! ## the write orders before the repairs lose activity -/
 
 /-- `SendBlock` as it was (before 0391cb4): the record is deleted first -/
@@ -55,7 +134,7 @@ theorem old_sendblock_order_loses :
   intro touches g
   refine ⟨inv_example_pending, ?_⟩
   intro p' h
-  have hc := h.cover (1, 0) (by decide) 5 (by decide) (by decide) (by decide)
+  have hc := h.cover (1, 0) (by decide) 5 (by decide) (by decide) (by decide) (by decide)
   rcases hc with hc | ⟨r, hr, _⟩
   · exact absurd hc (by decide)
   · have hrec : p'.records = [] := by decide
@@ -76,7 +155,7 @@ theorem old_set_scripts_writes_lose :
   intro touches g
   refine ⟨inv_example_idle, ?_⟩
   intro p' h
-  have hc := h.cover (2, 3) (by decide) 5 (by decide) (by decide) (by decide)
+  have hc := h.cover (2, 3) (by decide) 5 (by decide) (by decide) (by decide) (by decide)
   rcases hc with hc | ⟨r, hr, _⟩
   · exact absurd hc (by decide)
   · have hrec : p'.records = [] := by decide
